@@ -112,6 +112,110 @@ def enc(cs):
     return ''.join(chr(c) for c in cs).encode('utf-8', 'surrogatepass')
 
 
+def reorder_expected(cs, opt):
+    """Is the line laid out in the order dir_reorder computes?  ex.c: `linelimit` = "do not process lines longer
+    than this" -- longer in CHARACTERS (the terminator counts); order 2 = always, order 1 = only lines that
+    contain a multi-byte sequence, order 0 = never.  opt = (order, td, lim)."""
+    n = len(cs)
+    return n <= opt[2] and (opt[0] == 2 or (opt[0] == 1 and n < len(enc(cs))))
+
+
+LIM_ARAB = [0x628, 0x62a, 0x633, 0x644, 0x645, 0x646, 0x647, 0x64a]       # two bytes each
+LIM_HEB = [0x5d0, 0x5d1, 0x5d2, 0x5e9, 0x5dc]                               # two bytes each
+LIM_CJK = [0x4e2d, 0x6587, 0x65e5, 0x672c]                                  # three bytes each, left-to-right, two cells
+LIM_LAT2 = [0xe9, 0xe8, 0xfc]                                               # two bytes each, left-to-right
+LIM_LATIN = [0x61, 0x62, 0x63, 0x7a, 0x41, 0x39]
+
+
+def gen_limit_lines(rng, quick, lims=(8, 16, 256)):
+    """Lines around `linelimit`, counted both ways.  For every limit L: lines of L-1, L, L+1 CHARACTERS (with and
+    without a terminator, which counts) whose BYTE count is far above L (two- and three-byte characters), and
+    lines whose BYTE count is L-1, L, L+1 while they have far fewer characters; each one with a run that the
+    reordering must reverse: right-to-left letters (Arabic, Hebrew; neutrals inside) in a left-to-right line,
+    a Latin run in a right-to-left line; the base direction comes from the first character or from
+    textdirection; orders 0, 1, 2.  Single-byte lines of the same lengths are the controls (order 1 never
+    reorders them; with td=-2 they are one Latin run in a right-to-left line for order 2).
+    Returns [(code points, (order, td, lim))]; deterministic given the rng."""
+    NL = 10
+    out = []
+
+    def pad(cs, n, pool, tail):
+        """cs extended by characters of `pool` to n characters, ending in `tail`"""
+        body = list(cs)
+        k = 0
+        while len(body) + len(tail) < n:
+            body.append(pool[k % len(pool)])
+            k += 1
+        return (body + tail)[:n] if len(body) + len(tail) > n else body + tail
+
+    def lines_of(n, nl):
+        """lines of exactly n characters (terminator included if nl); None entries are dropped by the caller"""
+        m = n - (1 if nl else 0)            # characters before the terminator
+        end = [NL] if nl else []
+        r = []
+        if m < 6:
+            return r
+        ar = [rng.choice(LIM_ARAB) for _ in range(3)]
+        he = [rng.choice(LIM_HEB) for _ in range(3)]
+        # left-to-right line: "a <run> b" padded with three-byte / two-byte left-to-right characters
+        r.append((pad([0x61, 0x20] + ar[:2] + [0x20, 0x62], m, LIM_CJK, []) + end, (0, 1)))
+        r.append((pad([0x61, 0x20, ar[0], 0x20, ar[1], ar[2], 0x20], m, LIM_LAT2, []) + end, (0, 1, 2)))
+        r.append((pad([0x7a, 0x20] + he + [0x2e], m, LIM_CJK, [0x20, ar[0], ar[1]]) + end, (0, 2)))
+        # the run at the very end of the line / the whole line one run (left-to-right forced)
+        r.append((pad([0x61, 0x20], m, LIM_ARAB, []) + end, (0, 1, 2)))
+        r.append((pad([], m, LIM_ARAB, []) + end, (1, 2)))
+        r.append((pad([], m, LIM_HEB, [0x20, 0x5d0]) + end, (2,)))
+        # right-to-left line: Arabic text with a Latin run inside / at the end
+        r.append((pad(ar[:2] + [0x20, 0x61, 0x62, 0x20, 0x63, 0x20], m, LIM_ARAB, []) + end, (0, -1, -2)))
+        r.append((pad(ar[:1] + [0x20], m, LIM_ARAB, [0x20, 0x78, 0x79, 0x31]) + end, (0, -1)))
+        r.append((pad([0x61, 0x62, 0x20] + he[:2] + [0x20, 0x63, 0x64, 0x20], m, LIM_HEB, []) + end, (-2, -1)))
+        # single-byte controls of the same length
+        r.append((pad([0x61, 0x62, 0x20, 0x63], m, LIM_LATIN, []) + end, (-2, 0)))
+        return r
+
+    def lines_bytes(nbytes, nl):
+        """lines of exactly nbytes bytes made (almost) only of multi-byte characters: about half / a third as many characters"""
+        m = nbytes - (1 if nl else 0)
+        end = [NL] if nl else []
+        r = []
+        if m < 8:
+            return r
+        # "a " + two-byte right-to-left letters (+ one single-byte character if the parity asks for it)
+        k = (m - 2) // 2
+        r.append(([0x61, 0x20] + [LIM_ARAB[i % len(LIM_ARAB)] for i in range(k)] + ([0x2e] if (m - 2) % 2 else []) + end, (0, 1)))
+        # right-to-left line with a Latin run: letters, " ab c", letters
+        k = (m - 6) // 2
+        r.append(([LIM_ARAB[i % 5] for i in range(k)] + [0x20, 0x61, 0x62, 0x20, 0x63] + ([0x2e] if (m - 6) % 2 else [0x20]) + end, (0, -1)))
+        # three-byte filler in front of a run
+        k = (m - 5) // 3
+        r.append(([LIM_CJK[i % len(LIM_CJK)] for i in range(k)] + [0x20] * ((m - 5) % 3 + 1) + [rng.choice(LIM_HEB), rng.choice(LIM_ARAB)] + end, (0, 2)))
+        return r
+
+    for lim in lims:
+        big = lim > 64
+        for n in (lim - 1, lim, lim + 1):
+            for nl in (True, False):
+                if big and quick and not nl and n != lim:
+                    continue
+                cand = lines_of(n, nl) + lines_bytes(n, nl)
+                if big and quick:
+                    cand = [cand[i] for i in range(len(cand)) if (i + n) % 2 == 0 or i in (0, 6)]
+                for cs, tds in cand:
+                    assert all(c != 0 and c != 26 for c in cs)
+                    for td in tds:
+                        orders = (1, 2) if (big and quick) else (1, 2, 0)
+                        for order in orders:
+                            if order == 0 and td != tds[0]:
+                                continue
+                            out.append((cs, (order, td, lim)))
+                    # the same line against the neighbouring limits: one character / a few bytes either side
+                    if not big:
+                        for l2 in (len(cs) - 1, len(cs) + 1, len(enc(cs)), len(enc(cs)) - 1):
+                            if l2 != lim and l2 > 0:
+                                out.append((cs, (rng.choice([1, 2]), tds[0], l2)))
+    return out
+
+
 def build(model=None, vi=False):
     """plain and sanitized probe (and, if asked for, the extracted model and the real binary) built side by side"""
     vlib.tmpdir()                       # create the scratch directory before the threads start
